@@ -131,7 +131,9 @@ func checkC11(c *hx.Ctx) {
 				fail(fmt.Sprintf("parser rejected a client-built %s request: %v", b.Desc.Type, err), rp)
 				return
 			}
-			bad := func(f string, a ...interface{}) { fail(fmt.Sprintf("client-built %s parses back differently: ", b.Desc.Type)+fmt.Sprintf(f, a...), rp) }
+			bad := func(f string, a ...interface{}) {
+				fail(fmt.Sprintf("client-built %s parses back differently: ", b.Desc.Type)+fmt.Sprintf(f, a...), rp)
+			}
 			if op.UniqueSuffix != d.Suffix {
 				bad("suffix %s != %s", op.UniqueSuffix, d.Suffix)
 				return
